@@ -854,6 +854,7 @@ def stepAll (d : DW) (line : String) : DW × String :=
   | ["mfork"] => (d, "ok")
   | ["mother", _] => (d, "ok")   -- another environment is built, reset and dropped somewhere else in the process
   | ["cogb"] => (d, "ok")        -- a look-up of an existing reward observer by its base class: returns a subscriber, creates nothing
+  | ["reseat"] => (d, "ok")      -- the schedule's lists re-assigned through the public setter with equal content
   | ["draw"] => (d, "ok")        -- a Gantt chart of the live schedule is drawn and thrown away: looking changes nothing
   | ["stamp"] => (d, "ok")       -- the caller writes notes into `Schedule.metadata`: a dictionary of the user's, no part of the state
   | ["xform"] => (d, "ok")       -- instance transformations applied to the instance produce NEW instances: nothing changes here
